@@ -4,8 +4,9 @@
 # suite passes with it, demo fails with it and passes without, and the quick check of its property reports a violation.
 # Writes /verif/seeded/RESULTS.md.
 cd /verif
+FINAL=seeded/RESULTS.md; [ -n "$1" ] && FINAL=/dev/shm/RESULTS.partial.md
 DIRS="$@"; [ -z "$DIRS" ] && DIRS=$(ls -d seeded/C??-* | sort -V)
-OUT=seeded/RESULTS.md.new
+OUT=/dev/shm/RESULTS.md.new.$$
 echo "| seeded change | suite with patch | demo with / without | quick check of its property |" > $OUT
 echo "|---|---|---|---|" >> $OUT
 for d in $DIRS; do
@@ -22,4 +23,4 @@ for d in $DIRS; do
   echo "$id: $r"
   rm -rf $SCR
 done
-mv $OUT seeded/RESULTS.md
+mv $OUT $FINAL
